@@ -372,6 +372,32 @@ theorem Same.evolves {s s' : St} (h : Same s s') : Evolves s s' := by
   obtain ⟨st', hst', hs⟩ := map_get_of_eq k3.symm hst
   exact ⟨st', hst', hs⟩
 
+-- ---------------------------------------------------------------- Back: nothing becomes finalized
+
+/-- every finalized state info of `s'` was already there, finalized, in `s` (same rollapp, same index,
+    same fields except possibly `next`) -/
+def Back (s s' : St) : Prop :=
+  ∀ r' ∈ s'.ras, ∀ (i : Nat) (st' : SInfo), r'.states[i]? = some st' → st'.finalized = true →
+    ∃ r ∈ s.ras, r.id = r'.id ∧ ∃ st, r.states[i]? = some st ∧ sKey st = sKey st'
+
+theorem Back.refl (s : St) : Back s s := fun r hr i st hst _ => ⟨r, hr, rfl, st, hst, rfl⟩
+
+theorem Back.trans {a b c : St} (h1 : Back a b) (h2 : Back b c) : Back a c := by
+  intro r2 hr2 i st2 hst2 hf2
+  obtain ⟨r1, hr1, e1, st1, hst1, k1⟩ := h2 r2 hr2 i st2 hst2 hf2
+  obtain ⟨r0, hr0, e0, st0, hst0, k0⟩ := h1 r1 hr1 i st1 hst1 (by rw [(sKey_fields k1).2.2.2.2.1]; exact hf2)
+  exact ⟨r0, hr0, e0.trans e1, st0, hst0, k0.trans k1⟩
+
+theorem Back.of_ras_eq {s s' : St} (e : s'.ras = s.ras) : Back s s' := by
+  intro r hr i st hst _; exact ⟨r, by rw [← e]; exact hr, rfl, st, hst, rfl⟩
+
+theorem Same.back {s s' : St} (h : Same s s') : Back s s' := by
+  intro r' hr' i st' hst' _
+  obtain ⟨r, hr, hk⟩ := h.mem_back hr'
+  obtain ⟨k1, _, k3⟩ := rKey_fields hk
+  obtain ⟨st, hst, hs⟩ := map_get_of_eq k3.symm hst'
+  exact ⟨r, hr, k1, st, hst, hs⟩
+
 -- ---------------------------------------------------------------- the composite relation proved for every op
 
 /-- from a state satisfying the chain and finalization invariants, the next state satisfies them
